@@ -1,8 +1,9 @@
 SPECIFICATION Spec
 CONSTANTS
   MaxLeaves = 5
-  MaxArity = 3
-  Pats = {1}
+  MaxArity = 4
+  UnaryUpTo = 4
+  Pats = {0, 1, 2}
 INVARIANT L_Domain
 INVARIANT L_PathSums
 INVARIANT L_AsBinary
